@@ -76,6 +76,8 @@ def function(ip: Interp, fn: PyConst, args, kwargs, n):
             zargs.append(a)
         f = ip.w.uf(node.name + '__' + '_'.join(str(a.sort()) for a in zargs), *[a.sort() for a in zargs], S.sort_of(ret))
         return f(*zargs)
+    if kind == 'spec' and _is_recursive(fn.obj):
+        return _rec_spec_call(ip, fn.obj, args, n)
     if kind == 'spec':
         node = fn.obj
         clo = Closure(node, {}, None, None)
@@ -356,6 +358,54 @@ def function(ip: Interp, fn: PyConst, args, kwargs, n):
     if name == 'sorted' or name == 'hash' or name == 'id':
         ip.oos(f'{name}()', n)
     ip.oos(f'builtin {name}', n)
+
+
+def _is_recursive(node) -> bool:
+    return any(isinstance(x, ast.Call) and isinstance(x.func, ast.Name) and x.func.id == node.name for x in ast.walk(node))
+
+
+def _kind_sort(kind: str):
+    if kind.startswith(('opaque:', 'func:')):
+        return z3.IntSort()
+    return S.sort_of(kind)
+
+
+def _wrap_kind(kind: str, term):
+    if kind.startswith('opaque:'):
+        return Opaque(kind.split(':', 1)[1], term)
+    if kind.startswith('func:'):
+        return FuncVal(kind.split(':', 1)[1], term)
+    return term
+
+
+def _rec_spec_call(ip: Interp, node, args, n):
+    """recursive spec function -> z3 RecFunction (parameter/return kinds from the string annotations)"""
+    w = ip.w
+    kinds = [ast.literal_eval(a.annotation) if a.annotation is not None else 'Val' for a in node.args.args]
+    ret = ast.literal_eval(node.returns) if node.returns is not None else 'Val'
+    recs = w.__dict__.setdefault('_recfuns', {})
+    if node.name not in recs:
+        f = z3.RecFunction(node.name, *[_kind_sort(k) for k in kinds], _kind_sort(ret))
+        recs[node.name] = f
+        formals = [z3.FreshConst(_kind_sort(k), f'{node.name}_{a.arg}') for k, a in zip(kinds, node.args.args)]
+        env = {a.arg: _wrap_kind(k, t) for a, k, t in zip(node.args.args, kinds, formals)}
+        sub = Interp(ip.p, None, env, spec=True, fname=node.name)
+        body = sub.functional(node.body, n)
+        if isinstance(body, (Opaque, FuncVal)):
+            body = body.ident
+        if isinstance(body, ZRec):
+            body = body.get()
+        body = sub.coerce_sort(body, _kind_sort(ret), n) if not (z3.is_expr(body) and body.sort() == _kind_sort(ret)) else body
+        z3.RecAddDefinition(f, formals, body)
+    f = recs[node.name]
+    zargs = []
+    for a, k in zip(args, kinds):
+        if isinstance(a, (Opaque, FuncVal)):
+            a = a.ident
+        if isinstance(a, ZRec):
+            a = a.get()
+        zargs.append(ip.coerce_sort(a, _kind_sort(k), n))
+    return _wrap_kind(ret, f(*zargs))
 
 
 def construct(ip: Interp, name, args, kwargs, n):
